@@ -205,6 +205,10 @@ fn case(steps: &[B], loc: &'static str, k: f32, area: f32, lm: bool) -> Case {
     Case { text: gen::text(steps), loc, k_exp: k, area, lm }
 }
 
+static SCALE: std::sync::atomic::AtomicUsize = std::sync::atomic::AtomicUsize::new(60);
+pub fn set_scale(n: usize) { SCALE.store(n, std::sync::atomic::Ordering::Relaxed); }
+pub fn scale() -> usize { SCALE.load(std::sync::atomic::Ordering::Relaxed) }
+
 pub fn check(pid: &str, seed: u64) -> Value {
     if ["C05", "C06", "C07", "C08", "C10", "C16"].contains(&pid) {
         let mut rep = crate::preds2::Rep { evals: 0, nontrivial: 0, failures: vec![], samples: vec![] };
@@ -219,7 +223,7 @@ pub fn check(pid: &str, seed: u64) -> Value {
         return json!({"property": pid, "seed": seed, "evaluations": rep.evals, "distinct_nontrivial": rep.nontrivial, "exhaustive": true, "domain": domain, "rule": rule, "failures": fails, "samples": rep.samples});
     }
     let singles = gen::singles();
-    let multis = gen::multis(seed, 60);
+    let multis = gen::multis(seed, scale());
     let mut all: Vec<Vec<B>> = singles.iter().map(|b| vec![*b]).collect();
     all.extend(multis.iter().cloned());
     let mut evals = 0usize;
@@ -390,7 +394,7 @@ pub fn check(pid: &str, seed: u64) -> Value {
     }
     json!({
         "property": pid, "seed": seed, "evaluations": evals, "distinct_nontrivial": nontrivial, "exhaustive": true,
-        "domain": "every single-step building over cal_el,pv in {0,.5,1,2,3} x nepb_el,chp in {0,1,3} x acs_el in {0,1} x gas,amb in {0,2} (1800; some predicates use a stated stride) + 3 fixed and 60 seeded 2-3 step buildings; PENINSULA factors; both load-matching modes",
+        "domain": "every single-step building over cal_el,pv in {0,.5,1,2,3} x nepb_el,chp in {0,1,3} x acs_el in {0,1} x gas,amb in {0,2} (1800; some predicates use a stated stride) + fixed special multi-step buildings and seeded 2-3 step buildings (60 quick / 600 thorough); PENINSULA factors; both load-matching modes",
         "rule": "a case is non-trivial when it has on-site or cogenerated electricity together with EPB electricity use",
         "failures": failures.into_iter().chain(known.into_iter()).collect::<Vec<_>>(), "samples": samples,
     })
